@@ -145,6 +145,8 @@ pub struct StepResult {
     pub t0: SystemTime,
     pub t1: SystemTime,
     pub process_calls: u32,
+    /// number of datagrams of this step the kernel accepted for sending (excluding the sentinel)
+    pub sent_ok: usize,
 }
 
 impl Lab {
@@ -207,9 +209,12 @@ impl Lab {
     /// least (used only to wait a little for loopback stragglers, never as an oracle).
     pub fn step(&mut self, sends: &[(usize, Vec<u8>)], expect_min: usize) -> Result<StepResult, StepErr> {
         let t0 = SystemTime::now();
+        let mut sent_ok = 0;
         for (s, d) in sends {
             // a send error (e.g. EMSGSIZE) simply means the datagram never existed
-            let _ = self.socks[*s].send_to(d, self.addr);
+            if self.socks[*s].send_to(d, self.addr).is_ok() {
+                sent_ok += 1;
+            }
         }
         let (sproto, sreq) = self.make_sentinel();
         self.sentinel.send_to(&sreq, self.addr).map_err(|e| StepErr::Wedged(format!("sentinel send failed: {}", e)))?;
@@ -250,7 +255,7 @@ impl Lab {
             Self::drain(s, &mut replies[i]);
         }
         Self::drain(&self.sentinel, &mut sentinel_replies);
-        Ok(StepResult { replies, sentinel_request: sreq, sentinel_proto: sproto, sentinel_replies, t0, t1, process_calls: calls })
+        Ok(StepResult { replies, sentinel_request: sreq, sentinel_proto: sproto, sentinel_replies, t0, t1, process_calls: calls, sent_ok })
     }
 
     /// pump the server with nothing queued (lets timers fire); returns Err on panic
